@@ -30,7 +30,7 @@ FRAMES = {
     'E': [('DEPTH', 'float64', None), ('VAL', 'int16', None)],
 }
 CASTS_OF = {'E': {'DEPTH': 'float32'}}
-SRC = ['inline', 'dict', 'struct', 'h5']
+SRC = ['inline', 'dict', 'struct', 'h5', 'struct-padded']     # struct-padded: unused bytes inside every row of the source
 
 
 def shards(tier):
@@ -137,8 +137,8 @@ def make_spec_s2(c, reference):
         data = data[::-1]
     if c['src'] == 'dict':
         sp['write']['data'] = {'$datadict': dict(data)}
-    elif c['src'] == 'struct':
-        sp['write']['data'] = {'$struct': {'fields': [[k, v] for k, v in data]}}
+    elif c['src'] in ('struct', 'struct-padded'):
+        sp['write']['data'] = {'$struct': {'fields': [[k, v] for k, v in data], 'padded': c['src'] == 'struct-padded'}}
     elif c['src'] == 'h5':
         sp['write']['data'] = {'$h5': {('/' + k): v for k, v in data}}
     return sp
@@ -202,8 +202,8 @@ def make_spec(c, reference=False):
         data = ([ex] if c['extra'] is True else []) + data + [('ZZ-UNUSED', S.arr_spec('uint8', [rows, 2], [7] * (2 * rows)))]
     if c['src'] == 'dict':
         sp['write']['data'] = {'$datadict': dict(data)}
-    elif c['src'] == 'struct':
-        sp['write']['data'] = {'$struct': {'fields': [[k, v] for k, v in data]}}
+    elif c['src'] in ('struct', 'struct-padded'):
+        sp['write']['data'] = {'$struct': {'fields': [[k, v] for k, v in data], 'padded': c['src'] == 'struct-padded'}}
     elif c['src'] == 'h5':
         sp['write']['data'] = {'$h5': {('/' + k.lstrip('/')): v for k, v in data}}
     return sp
